@@ -135,6 +135,74 @@ def label_of(text_line):
     m = re.search(r"//\s*\[([A-Za-z0-9_.\-]+)\]", text_line or "")
     return m.group(1) if m else None
 
+def is_proof_hint(f, fns):
+    """a failing obligation that is only a proof hint: an `assert` of the spliced proof text (not a debug_assert! of the code, which
+    rule D2 writes as `assert(__c)` / `assert(__eq)`), or the precondition of a lemma (proof fn) call"""
+    if f["kind"] == "assert":
+        t = f.get("at_text", "") + " " + f.get("clause", "")
+        if re.search(r"assert\s*\(\s*__(c|eq)\w*\s*\)", t) or "debug_assert" in f["obligation"]:
+            return False
+        return True
+    if f["kind"] == "requires-at-call":
+        nm = f.get("callee", "").strip("()").split("::")[-1]
+        if not nm: return False
+        modes = set(g.get("mode") for g in fns if g["name"] == nm)
+        return modes == {"proof"}
+    return False
+
+def prune_statements(text, spans):
+    """blank (keeping line structure) the statement each span lies in: `assert(..);`, `assert(..) by {..}[;]`,
+    `assert forall .. by {..}`, `lemma(..);`"""
+    toks = [t for t in extract.tokenize(text) if True]
+    starts = []
+    off = 0
+    line_off = [0]
+    for ln in text.split("\n"):
+        off += len(ln) + 1; line_off.append(off)
+    cuts = []
+    for (l0, c0, l1, c1) in spans:
+        pos = line_off[l0 - 1] + (c0 - 1)
+        # token at / after pos
+        k = 0
+        while k < len(toks) and toks[k].end <= pos: k += 1
+        if k >= len(toks): continue
+        # statement start: after the previous ; { } at depth 0
+        j = k - 1; depth = 0; st = 0
+        while j >= 0:
+            tx = toks[j].text
+            if tx in (")", "]"): depth += 1
+            elif tx in ("(", "["):
+                if depth == 0: st = j + 1; break
+                depth -= 1
+            elif depth == 0 and tx in (";", "{", "}"):
+                st = j + 1; break
+            j -= 1
+        if st >= len(toks): continue
+        if toks[st].text not in ("assert",) and not re.match(r"[A-Za-z_]", toks[st].text):
+            continue
+        # statement end
+        j = st; depth = 0; en = None
+        while j < len(toks):
+            tx = toks[j].text
+            if tx in ("(", "[", "{"): depth += 1
+            elif tx in (")", "]", "}"):
+                depth -= 1
+                if depth < 0: break
+                if depth == 0 and tx == "}":
+                    en = j
+                    if j + 1 < len(toks) and toks[j + 1].text == ";": en = j + 1
+                    break
+            elif tx == ";" and depth == 0:
+                en = j; break
+            j += 1
+        if en is None: continue
+        cuts.append((toks[st].start, toks[en].end))
+    out = text
+    for (a, b) in sorted(set(cuts), reverse=True):
+        seg = out[a:b]
+        out = out[:a] + "".join(ch if ch == "\n" else " " for ch in seg) + out[b:]
+    return out
+
 def run_unit(unit, workdir, seed=None, rlimit=None, do_canary=True, keep=None):
     u = CONF["units"][unit]
     frags = [os.path.join(VERIF, "units", f) for f in u["fragments"]]
@@ -198,61 +266,92 @@ def run_unit(unit, workdir, seed=None, rlimit=None, do_canary=True, keep=None):
         log("unit %s: resource limit hit, re-running with --rlimit 100" % unit)
         r = run_verus(path, workdir, seed=seed, rlimit=100)
     vr = r["res"].get("verification-results", {})
-    fails, tools, unknown = [], [], []
-    for d in r["diags"]:
-        if d.get("level") != "error": continue
-        if d.get("message", "").startswith("aborting due to"): continue
-        cls, kind = classify_diag(d)
-        spans = []
-        for sp in d.get("spans", []):
-            cur = sp
-            while cur is not None and os.path.basename(cur.get("file_name", "")) != os.path.basename(path) and cur.get("expansion"):
-                cur = cur["expansion"].get("span")
-            if cur is not None and cur is not sp:
-                cur = dict(cur); cur["is_primary"] = sp.get("is_primary"); cur["label"] = sp.get("label")
-            spans.append(cur or sp)
-        prim = [s for s in spans if s.get("is_primary")] or spans
-        if cls == "fail" and prim:
-            ps = prim[0]
-            # the clause that failed (labelled span) vs the place it failed at
-            clause_span = None
-            for s in spans:
-                if s.get("label") and re.search(r"failed this|failed pre|this (post|pre)condition|invariant", s["label"]):
-                    clause_span = s
-            cs = clause_span or ps
-            cl_text = (cs.get("text") or [{}])[0].get("text", "")
-            # a multi-line clause: the label may be on any of its lines
-            lab = None
-            if os.path.basename(cs.get("file_name", "")) != os.path.basename(path):
-                # the clause belongs to a contract vstd states for a std trait method (e.g. Iterator::next)
-                lab = "vstd:%s:%d" % (os.path.basename(cs.get("file_name", "?")), cs["line_start"])
-                cl_text = "(clause of the contract vstd gives this std trait method, %s line %d)" % (cs.get("file_name", "?"), cs["line_start"])
-            else:
-              for ln in range(cs["line_start"], cs["line_end"] + 1):
-                lab = lab or label_of(lines[ln - 1] if ln - 1 < len(lines) else "")
-            at = [s for s in spans if s is not cs]
-            at_line = at[0]["line_start"] if at else ps["line_start"]
-            # the function the obligation belongs to: for requires-at-call it is the caller (primary span)
-            own_line = ps["line_start"] if kind == "requires-at-call" else (at_line if kind == "ensures" else ps["line_start"])
-            f = locate(gen, fns, own_line)
-            fname = extract.fn_label(f) if f else "?"
-            if lab is None:
-                lab = "L" + hashlib.sha1(" ".join(cl_text.split()).encode()).hexdigest()[:8]
-            callee = ""
-            if kind == "requires-at-call":
-                cf = locate(gen, fns, cs["line_start"]) if clause_span else None
-                callee = "(" + extract.fn_label(cf) + ")" if cf else ""
-            name = ("%s::%s#%s%s[%s]" % (unit, fname, kind, callee, lab)).replace(" ", "_")   # no blanks: the name is one token of the VIOLATION / known-findings lines
-            props, it = props_at(own_line)
-            fails.append(dict(obligation=name, kind=kind, fn=fname, props=props, message=d["message"],
-                              clause=" ".join(cl_text.split())[:300], clause_line=cs["line_start"], at_line=at_line,
-                              at_text=(lines[at_line - 1].strip() if at_line - 1 < len(lines) else ""),
-                              source=(dict(file=it["rel"], item=it["container"] + " :: " + it["name"]) if it else None),
-                              rendered=d.get("rendered", "")))
-        elif cls == "tool":
-            tools.append(d.get("rendered") or d.get("message"))
+    def collect(r):
+      fails, tools, unknown = [], [], []
+      for d in r["diags"]:
+          if d.get("level") != "error": continue
+          if d.get("message", "").startswith("aborting due to"): continue
+          cls, kind = classify_diag(d)
+          spans = []
+          for sp in d.get("spans", []):
+              cur = sp
+              while cur is not None and os.path.basename(cur.get("file_name", "")) != os.path.basename(path) and cur.get("expansion"):
+                  cur = cur["expansion"].get("span")
+              if cur is not None and cur is not sp:
+                  cur = dict(cur); cur["is_primary"] = sp.get("is_primary"); cur["label"] = sp.get("label")
+              spans.append(cur or sp)
+          prim = [s for s in spans if s.get("is_primary")] or spans
+          if cls == "fail" and prim:
+              ps = prim[0]
+              # the clause that failed (labelled span) vs the place it failed at
+              clause_span = None
+              for s in spans:
+                  if s.get("label") and re.search(r"failed this|failed pre|this (post|pre)condition|invariant", s["label"]):
+                      clause_span = s
+              cs = clause_span or ps
+              cl_text = (cs.get("text") or [{}])[0].get("text", "")
+              # a multi-line clause: the label may be on any of its lines
+              lab = None
+              if os.path.basename(cs.get("file_name", "")) != os.path.basename(path):
+                  # the clause belongs to a contract vstd states for a std trait method (e.g. Iterator::next)
+                  lab = "vstd:%s:%d" % (os.path.basename(cs.get("file_name", "?")), cs["line_start"])
+                  cl_text = "(clause of the contract vstd gives this std trait method, %s line %d)" % (cs.get("file_name", "?"), cs["line_start"])
+              else:
+                for ln in range(cs["line_start"], cs["line_end"] + 1):
+                  lab = lab or label_of(lines[ln - 1] if ln - 1 < len(lines) else "")
+              at = [s for s in spans if s is not cs]
+              at_line = at[0]["line_start"] if at else ps["line_start"]
+              # the function the obligation belongs to: for requires-at-call it is the caller (primary span)
+              own_line = ps["line_start"] if kind == "requires-at-call" else (at_line if kind == "ensures" else ps["line_start"])
+              f = locate(gen, fns, own_line)
+              fname = extract.fn_label(f) if f else "?"
+              if lab is None:
+                  lab = "L" + hashlib.sha1(" ".join(cl_text.split()).encode()).hexdigest()[:8]
+              callee = ""
+              if kind == "requires-at-call":
+                  cf = locate(gen, fns, cs["line_start"]) if clause_span else None
+                  callee = "(" + extract.fn_label(cf) + ")" if cf else ""
+              name = ("%s::%s#%s%s[%s]" % (unit, fname, kind, callee, lab)).replace(" ", "_")   # no blanks: the name is one token of the VIOLATION / known-findings lines
+              props, it = props_at(own_line)
+              fails.append(dict(obligation=name, kind=kind, fn=fname, props=props, message=d["message"],
+                                clause=" ".join(cl_text.split())[:300], clause_line=cs["line_start"], at_line=at_line,
+                                at_text=(lines[at_line - 1].strip() if at_line - 1 < len(lines) else ""),
+                                source=(dict(file=it["rel"], item=it["container"] + " :: " + it["name"]) if it else None),
+                                rendered=d.get("rendered", ""), span=(ps["line_start"], ps["column_start"], ps["line_end"], ps["column_end"]), callee=callee))
+          elif cls == "tool":
+              tools.append(d.get("rendered") or d.get("message"))
+          else:
+              unknown.append(d.get("rendered") or d.get("message"))
+      return fails, tools, unknown
+    fails, tools, unknown = collect(r)
+    # ---- proof hints that fail after a REPOSITORY CHANGE (drift) are not violations by themselves: Verus goes on as if a failed
+    # `assert` / lemma precondition held, so the function's contract is only decided once the failing hint is taken out.  Take the
+    # failing hints out (never assume them) and verify again: the contract passes -> the property holds on the changed code (no
+    # alarm); a contract-level obligation fails -> that obligation is the violation; no end after four rounds -> undecided.
+    pruned = []
+    if asm["drift"] and fails and not unknown and not tools and not vr.get("encountered-vir-error"):
+        cur_text = gen
+        for _round in range(4):
+            if not fails or not all(is_proof_hint(f, fns) for f in fails):
+                break
+            new_text = prune_statements(cur_text, [f["span"] for f in fails])
+            if new_text == cur_text:
+                break
+            pruned += [f["obligation"] for f in fails]
+            cur_text = new_text
+            open(path, "w").write(cur_text)
+            lines = cur_text.split("\n")
+            r = run_verus(path, workdir, seed=seed, rlimit=rlimit)
+            vr = r["res"].get("verification-results", {})
+            fails, tools, unknown = collect(r)
+            if unknown or tools or vr.get("encountered-vir-error"):
+                raise Undecided("unit %s: after a repository change %d proof hint(s) fail (%s) and the text without them is outside the verifier's reach:\n%s" % (
+                    unit, len(pruned), ", ".join(pruned[:4]), "\n".join(unknown + tools)[:2000]))
         else:
-            unknown.append(d.get("rendered") or d.get("message"))
+            if fails and all(is_proof_hint(f, fns) for f in fails):
+                raise Undecided("unit %s: after a repository change proof hints keep failing (%s): the contract could not be decided" % (unit, ", ".join(pruned[:6])))
+        if pruned:
+            log("unit %s: %d proof hint(s) failed after a repository change and were taken out before deciding: %s" % (unit, len(pruned), ", ".join(pruned[:6])))
     if vr.get("encountered-vir-error") or unknown:
         raise Undecided("unit %s: the generated text does not compile / is outside the verifier's subset:\n%s" % (unit, "\n".join(unknown + tools)[:4000]))
     bd = breakdown(r["res"])
@@ -263,6 +362,7 @@ def run_unit(unit, workdir, seed=None, rlimit=None, do_canary=True, keep=None):
         raise Undecided("unit %s: verus reported failure without a classifiable diagnostic:\n%s" % (unit, r["stderr"][-3000:]))
     ur = UnitResult()
     ur.unit, ur.asm, ur.gen, ur.fns, ur.fails, ur.trust = unit, asm, gen, fns, fails, trust
+    ur.pruned = pruned
     ur.verified, ur.errors = vr.get("verified", 0), vr.get("errors", 0)
     ur.breakdown = bd
     ur.smt_ms = r["res"].get("times-ms", {}).get("smt", {}).get("total", 0)
